@@ -254,9 +254,9 @@ def wbPush (cfg : WbCfg) (b : WB) (d : SDelta) : WB × Bool :=
     not needed — the WriteBuffer store is only compared with itself -/
 def wbName (counter : Nat) : Nat := 2 * counter + 2
 
-/-- `WriteBuffer::flush`.  `restore = false` is the code that exists: the deltas are taken (and the
-    counter advanced) before the `put`, and `?` drops them when it fails; `restore = true` is the
-    suggested repair (put them back in front, as `StreamingPersistence::flush` does since 97d2980). -/
+/-- `WriteBuffer::flush`.  `restore = false` is the pinned code: the deltas are taken (and the
+    counter advanced) before the `put`, and `?` drops them when it fails; `restore = true` is the tree
+    after the `fix:` commit ed7c4a2 (put them back in front, as `StreamingPersistence::flush` does since 97d2980). -/
 def wbFlushWith (restore : Bool) (F : Oracle) (w : World) (b : WB) : World × WB × Option Bool :=
   match b.deltas with
   | [] => (w, b, none)                                  -- `Ok(None)`
@@ -267,9 +267,10 @@ def wbFlushWith (restore : Bool) (F : Oracle) (w : World) (b : WB) : World × WB
     | (w', .err _) =>
       (w', if restore then { taken with deltas := d0 :: rest, bytes := b.bytes } else taken, some false)
 
-/-- does /repo's `WriteBuffer::flush` put the taken deltas back on error?  (`false`: the code that
-    exists — known finding C12:write-buffer:failed-flush-drops-buffer; flip when the fix lands) -/
-def wbRestores : Bool := false
+/-- does /repo's `WriteBuffer::flush` put the taken deltas back on error?  `true` since the `fix:`
+    commit ed7c4a2 (was C12:write-buffer:failed-flush-drops-buffer); `false` = the pinned variant the
+    counterexample is about -/
+def wbRestores : Bool := true
 
 def wbFlush (F : Oracle) (w : World) (b : WB) : World × WB × Option Bool := wbFlushWith wbRestores F w b
 
